@@ -1,7 +1,7 @@
 """C17 — work queue: one worker at a time, each item handed out once, none stranded (structural part)."""
 from core import strip, is_field, order_ge, key_str
 from facts import AnalysisBroken
-from rules import (nodeset, ev, Unevaluable, atom_from, reach, ret_const, is_var_load)
+from rules import (check_init, nodeset, ev, Unevaluable, atom_from, reach, ret_const, is_var_load)
 
 EXPLANATION = (
     "Decides the structure of the in/out counting protocol: push announces the item with one atomic add-and-fetch on in_count "
@@ -95,7 +95,7 @@ def run(ctx):
         if not inc or not reach(g, [s.node for s in inc], atom, start=pops[0], barrier=again):
             bad = bad or "a popped item is not counted in out_count"
     o.check(bad is None, "retire table", bad, site=g.loc, construct="work_queue_get_work")
-
+    check_init(ctx, P, "work_queue_init", [("work_queue", "in_count", 0), ("work_queue", "out_count", 0)], calls=["mpsc_fifo_init"])
 
 def path_value(f, r, atom):
     """value of a multiply-assigned local returned by r under forced edges: the last assignment on the forced path"""
